@@ -13,6 +13,10 @@ CHECKS = {
    technique="runtime monitoring: output read back by an independent RTF reader and compared with the input frame; conservation hook on the three paginate() methods",
    text="For every generated table (all strategies, nrow 1..50, wrapped rows, header/footnote/source variants, single and multi-section) the parsed data rows of all pages, concatenated, must equal the DataFrame's display texts in order; every table row must be classifiable by sentinel; a hook on DefaultPaginationStrategy/PageByStrategy/SublineStrategy.paginate asserts that the page slices partition the frame. Includes a completely enumerated rows x nrow x strategy x header grid.",
    note="trusted: reader; sentinel tagging of one key column per table; group_by absent (C13)"),
+ "C10": dict(cat="exploration", ref="5/C10",
+   technique="runtime monitoring: bytes of the file written by write_rtf decoded by an independent byte-level RTF reader and compared with the input text",
+   text="The real write_rtf writes documents whose body cells sweep the Unicode scalar values (thorough: all 1.1M minus controls/metacharacters, as single characters and packed 32 per cell; quick: U+0020..U+2FFF, boundary points and a stratified sample) with conversion on and off, and whose other text positions (header, title, subline, footnote/source as table and paragraph, page_by and subline_by headings, page header/footer) carry Latin-1, boundary and sampled characters; the file BYTES are decoded per RTF rules and must read back as the original text, with every \\u in the signed 16-bit range and its fallback skipped correctly.",
+   note="trusted: reader's byte decoding (cp1252 for raw high bytes, as Word/LibreOffice); C0/C1 controls and raw \\ { } outside the quantifier"),
  "C12": dict(cat="exploration", ref="5/C12",
    technique="runtime monitoring: every colour/font reference of the parsed output resolved through the parsed colour/font tables; state hook on get_rtf_color_index",
    text="All 657 named colours (each at least once) and random palettes are placed on every component as text/background/border colour in single-section, multi-section and figure documents; every \\cf/\\cb/\\chcbpat/\\brdrcf index in the parsed output must lie inside the document's own colour table and, for sentinel-tagged elements, resolve to the RGB of the requested name (0 <=> default); every \\f must be a font-table entry of the requested number and mapped name. A hook checks that the colour set active at each index lookup is the encoding document's own.",
